@@ -97,6 +97,9 @@ def adv_globals(rnd):
         g['d%d' % i] = rnd.choice(ADV_DATETIMES)
     for i in range(3):
         g['o%d' % i] = _fresh(rnd.choice(ADV_OTHER))
+    if rnd.random() < 0.2:
+        for i in rnd.sample(range(3), rnd.randint(1, 3)):
+            g['o%d' % i] = rnd.choice(sorted(CYCLIC))
     return g
 
 
@@ -111,6 +114,9 @@ def adv_expr(rnd, d):
         if c < 0.75:
             return rnd.choice(['o0', 'o1', 'o2'])
         return rnd.choice(NUM_LITERALS + ["''", "'a'", 'null', 'true'])
+    if k < 0.34:
+        # two container variables under one operator (the same one twice included)
+        return '(%s %s %s)' % (rnd.choice(['o0', 'o1', 'o2']), rnd.choice(['==', '!=', '<', '<=', '>', '>=', '+', '-', '&&']), rnd.choice(['o0', 'o1', 'o2']))
     if k < 0.7:
         op = rnd.choice(ge.BINARY_OPS + ['/', '%', '**', '+', '-', '*'])
         left = adv_expr(rnd, d - 1)
@@ -130,16 +136,39 @@ def adv_expr(rnd, d):
     return '%s(%s)' % (name, ', '.join(args))
 
 
+CYCLIC = {'$array-containing-itself': lambda: _cyclic([1.0]), '$object-containing-itself': lambda: _cyclic({'k': 1.0}),
+          '$array-in-object-in-array': lambda: _cyclic([{'in': [2.0]}], ('in',))}
+
+
+def _cyclic(root, path=()):
+    node = root[0] if path else root
+    for k in path:
+        node = node[k]
+    if isinstance(node, list):
+        node.append(root)
+    else:
+        node['self'] = root
+    return root
+
+
+def materialise(g):
+    """Globals written as plain data: the CYCLIC marker strings stand for fresh containers that contain themselves."""
+    return {k: (CYCLIC[v]() if isinstance(v, str) and v in CYCLIC else v) for k, v in g.items()}
+
+
 def check_adv_expression(text, g):
     d = {'kind': 'expr', 'text': text, 'globals': enc(g)}
+    cyclic = any(isinstance(v, str) and v in CYCLIC for v in g.values())
     expr = impl.bs.parse_expression(text)
+    g = materialise(g)
     g1 = copy.copy(g)
     g1.update((k, f) for k, f in impl.bs.SCRIPT_FUNCTIONS.items() if k not in g1)
     log = []
-    r1 = contained('expression %r' % text, lambda: impl.bs.evaluate_expression(expr, {'globals': g1, 'logFn': log.append}, None, False), d)
+    # (an expression of depth <= 4 cannot exhaust the host stack by itself: a RecursionError here comes from a value that contains itself)
+    r1 = contained('expression %r' % text, lambda: impl.bs.evaluate_expression(expr, {'globals': g1, 'logFn': log.append}, None, False), d, cyclic)
     model = impl.bs.parse_script('return ' + text)
     g2 = copy.copy(g)
-    r2 = contained('script `return %s`' % text, lambda: impl.bs.execute_script(model, {'globals': g2, 'logFn': log.append, 'maxStatements': 1000}), d)
+    r2 = contained('script `return %s`' % text, lambda: impl.bs.execute_script(model, {'globals': g2, 'logFn': log.append, 'maxStatements': 1000}), d, cyclic)
     for r in (r1, r2):
         if r[0] == 'ok' and not is_value(r[1]):
             raise Violation('%r evaluates to %r, which is not a BareScript value' % (text, r[1]), d, 'not-a-value:' + type(r[1]).__name__)
